@@ -198,9 +198,11 @@ def parse_block(lines):
 
 
 def run_impl(ctx, exe, cases, timeout=None):
-    """-> list aligned with cases of dicts (parsed block) with extra keys crashed / detail"""
-    if timeout is None:
-        timeout = 60 + len(cases) // 5
+    """-> list aligned with cases of dicts (parsed block) with extra keys crashed / detail.
+    Hang detection is by CPU time (the harness sets RLIMIT_CPU on itself: SIGXCPU), so that a loaded machine cannot
+    turn a slow run into a verdict; the wall-clock timeout is only a generous backstop."""
+    cpu = timeout if timeout is not None else 60 + len(cases) // 5 + sum(c.get("maxiter", 0) for c in cases) // 2000
+    wall = 4 * cpu + 240
     results = [None] * len(cases)
     index = {c["id"]: i for i, c in enumerate(cases)}
     start = 0
@@ -208,8 +210,8 @@ def run_impl(ctx, exe, cases, timeout=None):
     crashes = 0
     while start < len(cases) and guard < len(cases) + 2:
         guard += 1
-        inp = "".join(case_text(c) for c in cases[start:])
-        r = ctx.run(exe, inp, timeout=timeout)
+        inp = "CPULIMIT %d\n" % cpu + "".join(case_text(c) for c in cases[start:])
+        r = ctx.run(exe, inp, timeout=wall)
         cur, buf, last = None, [], None
         for line in r.out.splitlines():
             if line.startswith("C "):
@@ -233,12 +235,13 @@ def run_impl(ctx, exe, cases, timeout=None):
         bad = cur if cur is not None else (missing[0] if missing else None)
         if bad is None:
             break
+        hung = r.timed_out or r.rc in (-24, -9, 152, 137)
         results[bad] = {"status": "CRASH", "crashed": True,
-                        "detail": (r.sanitizer or ("timeout after %d s (hang)" % timeout if r.timed_out
-                                                   else (r.err[-600:] or "rc=%s" % r.rc)))}
+                        "detail": (r.sanitizer or (("CPU time limit of %d s exceeded in a batch of %d small cases (hang)" % (cpu, len(cases) - start))
+                                                   if hung else (r.err[-600:] or "rc=%s" % r.rc)))}
         start = bad + 1
         crashes += 1
-        if r.timed_out or crashes >= 5:
+        if hung or crashes >= 5:
             # a verdict exists already; do not pay one timeout per remaining case
             for i in range(start, len(cases)):
                 if results[i] is None:
